@@ -3,7 +3,7 @@
 import json, subprocess, sys
 pid, k = sys.argv[1], sys.argv[2]
 n = sys.argv[3] if len(sys.argv) > 3 else "3"
-wt = f"/tmp/mut-{pid}-{k}"
+wt = f"/root/scratch/mut-{pid}-{k}"
 subprocess.run(["git", "-C", "/repo", "worktree", "add", "-q", wt, "HEAD"], check=False)
 p = [json.loads(l) for l in open('/verif/properties.jsonl') if json.loads(l)['id'] == pid][0]
 t = open('/verif/tools/mut_brief.md').read()
